@@ -1579,7 +1579,9 @@ func c13Blocks(g *hx.WireGen, grams []*hx.CmdGrammar, c *hx.Client, twin *redka.
 			continue
 		}
 		own, wrong := sweepKeys[fam][0], sweepKeys[wrongOf[fam]][0]
-		for _, seq := range [][]string{{own, sweepKeys[fam][1]}, {wrong}, {own, wrong}, {own, "kn"}} {
+		// (the fifth sequence goes with numkeys = 2: destination / first key, then two distinct
+		// keys of the type whose contents overlap)
+		for _, seq := range [][]string{{own, sweepKeys[fam][1]}, {wrong}, {own, wrong}, {own, "kn"}, {sweepKeys[fam][1], own, sweepKeys[fam][1]}} {
 			okAll := true
 			for _, f := range []string{fam, wrongOf[fam]} {
 				for _, setup := range sweepSetup[f] {
@@ -1605,6 +1607,9 @@ func c13Blocks(g *hx.WireGen, grams []*hx.CmdGrammar, c *hx.Client, twin *redka.
 					}
 				}
 				g.MemberForce = force
+				if len(seq) == 3 {
+					g.NKeysForce = 2
+				}
 				g.ResetKeySeq(seq...)
 				var args []string
 				if cg.Combs != nil {
@@ -1613,6 +1618,7 @@ func c13Blocks(g *hx.WireGen, grams []*hx.CmdGrammar, c *hx.Client, twin *redka.
 					args = g.Vector(cg, 0)
 				}
 				g.ResetKeySeq()
+				g.NKeysForce = 0
 				g.MemberForce = ""
 				blockNo++
 				if !runBlock([][]string{{"SET", "marker1", fmt.Sprint("a", blockNo)}, args, {"SET", "marker2", fmt.Sprint("b", blockNo)}}) {
@@ -1835,13 +1841,20 @@ func c13Sweep(g *hx.WireGen, grams []*hx.CmdGrammar, one func(i int, args []stri
 							}
 						}
 						g.ResetKeySeq(sweepKeys[f][0], sweepKeys[wrongFam[f]][0])
+					case 2:
+						// two distinct keys of the type with overlapping content, in both roles: the second
+						// as destination / first key, then the first, then the second (numkeys = 2)
+						g.Keys = sweepKeys[f]
+						g.NKeysForce = 2
+						g.ResetKeySeq(sweepKeys[f][1], sweepKeys[f][0], sweepKeys[f][1])
 					default:
 						g.Keys = sweepKeys[f]
 					}
 					// once per variant a positional value spells one of the command's own keywords
-					g.ForceKeyword = rep == 2
+					g.ForceKeyword = rep == 3 || reps == 4 && rep == 2
 					vec := g.VectorOpts(cg, which)
 					g.ForceKeyword = false
+					g.NKeysForce = 0
 					g.ResetKeySeq()
 					if !run(vec) {
 						return
